@@ -65,6 +65,10 @@ ROWS = {
    technique='property-based testing: generated federations x issuer / signing key / KeyInfo material / signature level pairings under both settings, several messages per SP instance; oracle = reference model of the metadata',
    text='A message is accepted only if the key that actually signed it is a signing (or use-less) metadata key of the claimed Issuer, or - setting off, no such key in metadata - the embedded certificate is the signer\'s; embedded certificates, RSA key values, other entities\' keys, encryption-only keys and unknown issuers must not authenticate.',
    note=TOOL_NOTE + ' including its KeyInfo-first key search; documents built and signed by the harness; frozen clock.'),
+ 'C01': dict(level='exploration', design='3/C01',
+   technique='property-based testing: Hypothesis mutation scripts (20 tree operators incl. parametrised signature-wrapping constructions) over validly signed documents + enumerated XSW catalogue, oracle = independent signature-coverage predicate (digests the element itself, no ID lookup / node search) and identity projection',
+   text='Whenever an SP with a signature requirement accepts a rearranged signed response, every assertion, subject and attribute value it holds must equal content of an element covered by its own valid enveloped signature (single Reference to its own ID, verifying over present content under the issuer metadata key), and each enabled requirement must be met by such an element of the right kind; rejections are not judged.',
+   note=TOOL_NOTE + ' including the first-Signature-in-document-order search that makes wrapping possible; attacks through unmodelled xmlsec features are out of reach.'),
 }
 NOT_YET = {}
 def main():
